@@ -30,7 +30,9 @@ Whys(e) ==
         one(c, w) == IF c THEN <<w>> ELSE <<>>
     IN IF e.files # Files(s) THEN <<"MACHINERY-Binding">>
        ELSE IF s.fault.kind = "linemacro"
-       THEN (IF Len(ps) > 0 \/ ~e.lm.set THEN <<"MACHINERY-LineMacroNotEvaluated">>
+       \* the source of a linemacro case is clean: a position named by an error names no offending token
+       THEN (IF Len(ps) > 0 THEN <<"CleanSourceDiagnosed">>
+             ELSE IF ~e.lm.set THEN <<"MACHINERY-LineMacroNotEvaluated">>
              ELSE one(~FileMacro(s, e.lm), "FileMacro") \o one(~LineMacro(s, e.lm), "LineMacro"))
        ELSE IF Len(ps) = 0 THEN <<"MACHINERY-NoDiagnostic">>
        ELSE one(~All(ps, LAMBDA p : FilePreserved(s, p)), "FilePreserved")
@@ -46,7 +48,7 @@ Construct(e, w) ==
     IN IF w = "LinePreserved" /\ All(ps, LAMBDA p : ExplainedByCodeModel(s, p)) /\ Drift(s, code) # ""
        THEN Drift(s, code)
        ELSE IF w = "LineMacro" /\ e.lm.L = Believed(s, code).line /\ Drift(s, code) # "" THEN Drift(s, code)
-       ELSE IF w \in {"LinePreserved", "LineMacro", "FilePreserved", "FileMacro"} THEN "unexplained-since-" \o LastMarker(s)
+       ELSE IF w \in {"LinePreserved", "LineMacro", "FilePreserved", "FileMacro", "CleanSourceDiagnosed"} THEN "unexplained-since-" \o LastMarker(s)
        ELSE s.fault.kind
 
 TraceInit == l = 1 /\ dead = FALSE /\ bad = <<>> /\ nops = 0 /\ done = FALSE
